@@ -449,7 +449,9 @@ def _run(mod, ctx, t0):
         "wall_s": round(time.time() - t0, 2),
         "violations": violations,
     }
-    os.makedirs(os.path.join(VERIF, "evidence"), exist_ok=True)
-    json.dump(ev, open(os.path.join(VERIF, "evidence", f"{pid}.json"), "w"), indent=1, default=str)
+    # evidence/ describes /repo itself; a run pointed at a scratch copy (VERIF_REPO, development only) writes elsewhere
+    evdir = os.path.join(VERIF, "evidence") if os.path.realpath(REPO) == "/repo" else os.path.join(VERIF, "replays", "scratch-evidence")
+    os.makedirs(evdir, exist_ok=True)
+    json.dump(ev, open(os.path.join(evdir, f"{pid}.json"), "w"), indent=1, default=str)
     ctx.say(f"[{pid}] {'OK' if code == 0 else 'FAIL'} in {ev['wall_s']} s")
     return code
